@@ -255,6 +255,12 @@ func (m *Muxer) makeReliableTubeWithID(tType TubeType, tubeID byte, req bool) (*
 		m.log.WithField("tube", tubeID).Debug("tried to make tube while muxer is stopping")
 		return nil, ErrMuxerStopping
 	}
+	if !req && len(m.tubeQueue) == cap(m.tubeQueue) {
+		// The application is not accepting: refuse the request instead of
+		// blocking the receiver (and everything that needs m.m) on the queue.
+		m.log.WithField("tube", tubeID).Warn("accept queue full, ignoring tube request")
+		return nil, ErrOutOfTubes
+	}
 	tubeLog := m.log.WithFields(logrus.Fields{
 		"tube":     tubeID,
 		"reliable": true,
@@ -315,6 +321,10 @@ func (m *Muxer) makeUnreliableTubeWithID(tType TubeType, tubeID byte, req bool) 
 	if state != muxerRunning {
 		m.log.WithField("tube", tubeID).Debug("tried to make tube while muxer is stopping")
 		return nil, ErrMuxerStopping
+	}
+	if !req && len(m.tubeQueue) == cap(m.tubeQueue) {
+		m.log.WithField("tube", tubeID).Warn("accept queue full, ignoring tube request")
+		return nil, ErrOutOfTubes
 	}
 	tube := &Unreliable{
 		tType:        tType,
